@@ -151,6 +151,8 @@ def run(tier):
         # equal lengths everywhere: the setting in which swapped blocks / axes keep every shape intact
         specs.append(("idcat", ["a", "b"], [(2, 2, 2, 2, 2, 2)], 3, 3))
     rels = corpus.generate(rep, specs, mode="equiv", timeout=1500 if tier == "quick" else 3000)
+    if tier == "thorough":
+        rels = corpus.cap(rels, 40000)
     rep.exhaustive = True
     if tier == "quick":
         keep = {"elementwise": 12, "get_at": 8, "id": 4, "update_at": 6, "preserve": 2, "argfind": 2}
